@@ -141,6 +141,15 @@ class Sim:
                 self.fail("height", idx, "height failed")
         elif op == "iter":
             self.expect("iter", idx, ob, "ok", show_list(self.items(d)))
+            # C08: a root name stands for one contents: every listing of a tree that still is the version it was loaded
+            # from / persisted as must agree with every other listing under the same root name
+            r0 = self.cur_root.get(tid)
+            if r0 and r0.get("Link") and ob["outcome"] == "ok":
+                if not hasattr(self, "name_contents"):
+                    self.name_contents = {}
+                prev = self.name_contents.setdefault(r0["Link"], (idx, ob["payload"]))
+                if prev[1] != ob["payload"]:
+                    self.fail("name", idx, "root name %s was listed with different contents at operation %d and here" % (r0["Link"], prev[0]))
             # C13: a tree that has just reported itself clean is listed right afterwards: what it lists (not what the
             # reference says it should hold) must be the version it was loaded from / persisted as
             if getattr(self, "clean_at", {}).get(tid) == idx - 1 and ob["outcome"] == "ok" and self.base.get(tid) is not None:
